@@ -7,7 +7,7 @@ import random
 from sfv.framework import Ctx, Property
 from sfv.rt import provk, recov
 from sfv.rt.par import pmap
-from sfv.translate import availguards
+from sfv.translate import availguards, provguards
 
 
 def gen_graph(rng: random.Random, idx: int) -> dict:
@@ -164,7 +164,7 @@ class C18(Property):
     lean_targets = ["SFV.Props.C18", "SFV.Model.Proto"]
     props_files = ["SFV/Props/C18.lean"]
     drivers = ["Drivers/C18.lean"]
-    translators = [availguards.generate]
+    translators = [availguards.generate, provguards.generate]
     rule = ("(1) the REAL ProvenanceGraph.build_graph on random provenance relations (1..25 tokens, 0..3 dependees each, random availability, "
             "file tokens with 0..3 primary data locations in the real DataManager of which a random subset was deleted, lists and records of "
             "0..4 such tokens (partial losses), "
@@ -179,6 +179,7 @@ class C18(Property):
     trusted_base = [
         "recovery harness harness/sfv/rt/recov.py (own failure injectors subclassing the repo's test injectors) and harness/sfv/rt/provk.py",
         "translator harness/sfv/translate/availguards.py (shape and quantifiers of the four is_available methods)",
+        "translator harness/sfv/translate/provguards.py (statement shape of the build_graph loop: a digest of 12 facts, the model is not generated)",
         "token availability is a flag in the Lean model of build_graph and a tree of copies in Model/Avail.lean; FileToken.is_available runs for real in the build_graph comparison (copies on several local "
         "deployments, availability specified as `recoverable and some copy exists`) and in the end-to-end runs",
         "GraphMapper / get_step_ids (token graph -> steps to re-run) is not modelled: checked end to end through execution counts",
